@@ -309,11 +309,22 @@ static void run_history(mt_case * c, int prop) {
   }
   /* a detached / detached-attribute thread releases its record in its final callback: give those a turn */
   mv_progress();
-  for (int round = 0; round < 24; round++) {
-    int pending = 0;
-    for (int i = 0; i < nT; i++) { tnode_t * n = &T[i]; if ((n->detached_called || n->detach_attr) && n->le->desc_state != 2) pending = 1; }
-    if (!pending) break;
-    mv_spin(US_WAITDET); myth_yield();
+  {
+    /* controlled runs: 24 turns of every worker are a schedule bound (a record still owned after that was not
+       released).  Free-running runs (noise mode) have no such bound: the releasing worker's OS thread may simply
+       not have been scheduled yet, so wait in real time and call the case inconclusive if that is not enough */
+    struct timespec t0; clock_gettime(CLOCK_MONOTONIC, &t0);
+    for (int round = 0; ; round++) {
+      int pending = 0;
+      for (int i = 0; i < nT; i++) { tnode_t * n = &T[i]; if ((n->detached_called || n->detach_attr) && n->le->desc_state != 2) pending = 1; }
+      if (!pending) break;
+      if (e.mode == MV_CONTROLLED) { if (round >= 24) break; }
+      else {
+        struct timespec t1; clock_gettime(CLOCK_MONOTONIC, &t1);
+        if ((t1.tv_sec - t0.tv_sec) + (t1.tv_nsec - t0.tv_nsec) * 1e-9 > 8.0) mv_verdict(MVV_INCONCLUSIVE, "free-running case: the record of a detached thread was not released within 8 s of real time");
+      }
+      mv_spin(US_WAITDET); myth_yield();
+    }
   }
   mt_lib_finish();
 
